@@ -395,6 +395,18 @@ class ModelWriter:
             )
 
 
+def _doc_literal(doc):
+    """Source text of a string literal that evaluates to ``doc``"""
+    text = "\"\"\"" + doc + "\"\"\""
+    try:
+        if ("\\" not in doc and "\r" not in doc
+                and ast.literal_eval(text) == doc):
+            return text
+    except (SyntaxError, ValueError):
+        pass
+    return repr(doc)    # quotes at the end, triple quotes, backslashes, CR
+
+
 class BaseEncoder:
 
     def __init__(self, writer, target,
@@ -438,7 +450,7 @@ class ModelEncoder(BaseEncoder):
     def encode(self):
         lines = []
         if self.model.doc is not None:
-            lines.append("\"\"\"" + self.model.doc + "\"\"\"")
+            lines.append(_doc_literal(self.model.doc))
 
         lines.append("from modelx.serialize.jsonvalues import *")
         lines.append("_name = \"%s\"" % self.model.name)
@@ -496,7 +508,7 @@ class SpaceEncoder(BaseEncoder):
 
         lines = []
         if self.space.doc is not None:
-            lines.append("\"\"\"" + self.space.doc + "\"\"\"")
+            lines.append(_doc_literal(self.space.doc))
 
         lines.append("from modelx.serialize.jsonvalues import *")
 
@@ -640,7 +652,7 @@ class CellsEncoder(BaseEncoder):
             if self.target.formula.source[:6] == "lambda":
                 line = self.target.name + " = " + self.target.formula.source
                 if self.target.doc:
-                    line += "\n" + ("\"\"\"%s\"\"\"" % self.target.doc)
+                    line += "\n" + _doc_literal(self.target.doc)
                 lines.append(line)
             else:
                 lines.append(self.target.formula.source)
